@@ -88,6 +88,11 @@ pub trait Check: Sync {
     fn post_run(&self, _tier: Tier) -> Option<PostRun> {
         None
     }
+    /// true: the complete (thorough) bounds are cheap enough (seconds) to be enumerated on every change, the quick tier
+    /// then enumerates them too; the tier label of the evidence stays what was asked for
+    fn quick_is_thorough(&self) -> bool {
+        false
+    }
 }
 
 #[derive(Default)]
@@ -912,6 +917,9 @@ pub fn verif_dir() -> String {
 }
 
 pub fn supervisor_main(check: &dyn Check, tier: Tier) -> i32 {
+    // `label`: the tier that was asked for (evidence, summary line, post-run stage, wall cap); `tier`: the bounds that are enumerated
+    let label = tier;
+    let tier = if check.quick_is_thorough() { Tier::Thorough } else { tier };
     let t0 = Instant::now();
     let id = check.id();
     let vdir = verif_dir();
@@ -923,7 +931,7 @@ pub fn supervisor_main(check: &dyn Check, tier: Tier) -> i32 {
         .clamp(1, MAX_WORKERS);
     let wall_cap = Duration::from_secs(
         std::env::var("VERIF_WALL_CAP_S").ok().and_then(|s| s.parse().ok()).unwrap_or(
-            if tier.is_thorough() { 6 * 3600 } else { 900 },
+            if label.is_thorough() { 6 * 3600 } else { 900 },
         ),
     );
     let units = check.units(tier);
@@ -1093,7 +1101,7 @@ pub fn supervisor_main(check: &dyn Check, tier: Tier) -> i32 {
     }
 
     // optional second stage
-    let post = check.post_run(tier);
+    let post = check.post_run(label);
     let mut agg = agg;
     let mut post_cov: Vec<(String, String)> = vec![];
     let mut post_assumptions: Vec<String> = vec![];
@@ -1158,7 +1166,7 @@ pub fn supervisor_main(check: &dyn Check, tier: Tier) -> i32 {
     let mut ev = String::new();
     ev.push_str("{\n");
     ev.push_str(&format!(" \"property_id\": {},\n", jstr(id)));
-    ev.push_str(&format!(" \"tier\": {},\n", jstr(tier.name())));
+    ev.push_str(&format!(" \"tier\": {},\n", jstr(label.name())));
     ev.push_str(&format!(" \"seed\": {},\n", seed));
     ev.push_str(&format!(" \"level\": {},\n", jstr(check.level())));
     ev.push_str(" \"coverage\": {\n");
@@ -1206,6 +1214,9 @@ pub fn supervisor_main(check: &dyn Check, tier: Tier) -> i32 {
     ev.push_str("\n  ]\n },\n");
     ev.push_str(" \"assumptions\": [");
     let mut assumptions = check.assumptions(tier);
+    if check.quick_is_thorough() && !label.is_thorough() {
+        assumptions.push("the complete bounds of this check take seconds: the quick tier enumerates the same space as the thorough tier".into());
+    }
     assumptions.extend(post_assumptions);
     assumptions.push("the enumeration is deterministic; VERIF_SEED is recorded but unused because nothing is random".into());
     if bits > 0 {
@@ -1234,7 +1245,7 @@ pub fn supervisor_main(check: &dyn Check, tier: Tier) -> i32 {
     }
     println!(
         "{} {}: units={}/{} states={} transitions={} evaluations={} nontrivial={} outcomes={} dups={} crashes={} exhaustive={} wall={:.1}s",
-        id, tier.name(), agg.units_done.len(), units, agg.states, agg.transitions, agg.evals, agg.nontrivial,
+        id, label.name(), agg.units_done.len(), units, agg.states, agg.transitions, agg.evals, agg.nontrivial,
         agg.outcomes.len(), agg.dups, crashes, exhaustive, wall
     );
     if std::env::var("VERIF_PROFILE").is_ok() {
